@@ -380,7 +380,7 @@ func rule084(r *core.Run) {
 				gs := r.P.SliceOf(g.If.Cond, core.SliceOpts{Depth: -1})
 				cd := core.CondOf(g.If.Cond)
 				truth := g.Branch != cd.Neg
-				if gs.Has("global:io.EOF") && cd.Op == token.EQL && truth {
+				if eq, ok := g.Equality(); gs.Has("global:io.EOF") && ok && eq {
 					eof = true
 				}
 				if c, ok := cd.X.(*ssa.Call); ok && r.P.CalleeName(c) == "bytes.Equal" && !truth {
